@@ -202,6 +202,12 @@ ensures
         ('range', dict(ret='r', props=['C12'], spec='ensures r == self.node.sp_text_range(),      //@C12:range-of-the-node')),
         ('kind', dict(ret='r', props=['C12', 'C07'], spec='ensures *r == self.error_kind,')),
     ])
+    # the reporting interface (oq3_source_file::ErrorTrait) hands out that same range
+    U.file('crates/oq3_source_file/src/source_file.rs').item('trait', 'ErrorTrait')
+    ef.impl('ErrorTrait for SemanticError', [
+        ('message', dict(props=['C12'], trusted=True, note='formats the kind and the node text')),
+        ('range', dict(ret='r', props=['C12'], spec='ensures r == self.node.sp_text_range(),      //@C12:reported-range-is-the-range-of-the-node')),
+    ])
     s.impl('Default for SymbolTable', [
         ('default', dict(ret='r', props=['C19'], spec='''ensures
     r.wf(), r.depth() == 1,
@@ -270,6 +276,10 @@ ensures
               && r->Ok_0.0 == old(self).symbol_table.store().len(),                          //@C07:redecl-once''')),
     ])
     U.raw(open(__file__.replace('units/sym.py', 'contracts/sym.lemmas.rs')).read(), note='lemmas')
+    for _fc in (U.file(S), U.file(C), U.file(E)):
+        # (printing / formatting helpers are not pinned: no property depends on them)
+        _fc.guard_rest('not under contract in this unit; text pinned (contracts/trusted_hashes.json)',
+                       skip=('print_errors', 'print_errors_no_file', 'print_included_errors', 'dump', 'fmt', 'source_file_path', 'message'))
     U.assumed_dep = [
         'hashbrown::HashMap<String, SymbolId> behaves as a map (insert/get/contains_key/len) — through the six one-line ScopeSymbolTable methods',
         'ToString::to_string on &str returns the same characters (axiom to_string_spec_str)',
